@@ -99,9 +99,18 @@ class IBAN(common.Base):
 
         .. versionadded:: 2024.01.2
         """
+        # Normalize like the constructor does: whitespace and lower case must not matter here either.
+        country_code = common.clean(country_code)
+        bban = common.clean(bban)
         checksum_algo = ISO7064_mod97_10()
+        try:
+            checksum_digits = checksum_algo.compute([bban, country_code])
+        except ValueError:
+            # Characters outside [0-9A-Z] have no numeric value: the digits cannot be computed and
+            # the validation below reports the actual defect.
+            checksum_digits = "00"
         return cls(
-            country_code + checksum_algo.compute([bban, country_code]) + bban,
+            country_code + checksum_digits + bban,
             allow_invalid=allow_invalid,
             validate_bban=validate_bban,
         )
